@@ -29,6 +29,37 @@ impl HK for S2 {
     const KIND: HasherKind = HasherKind::Sha2;
 }
 
+/// A node hasher with a labelling scheme that is NOT the MSB one (see `HasherKind::TailLabel`); pure-core checks only.
+pub struct TailLabelHasher;
+impl nomt_core::hasher::ValueHasher for TailLabelHasher {
+    fn hash_value(value: &[u8]) -> [u8; 32] {
+        *blake3::hash(value).as_bytes()
+    }
+}
+impl nomt_core::hasher::NodeHasher for TailLabelHasher {
+    fn hash_leaf(data: &nomt_core::trie::LeafData) -> [u8; 32] {
+        HasherKind::TailLabel.leaf(&data.key_path, &data.value_hash)
+    }
+    fn hash_internal(data: &nomt_core::trie::InternalData) -> [u8; 32] {
+        HasherKind::TailLabel.internal(&data.left, &data.right)
+    }
+    fn node_kind(node: &nomt_core::trie::Node) -> nomt_core::trie::NodeKind {
+        use nomt_core::trie::NodeKind;
+        if *node == [0u8; 32] {
+            NodeKind::Terminator
+        } else if node[31] & 3 == 1 {
+            NodeKind::Leaf
+        } else {
+            NodeKind::Internal
+        }
+    }
+}
+pub struct TL;
+impl HK for TL {
+    type N = TailLabelHasher;
+    const KIND: HasherKind = HasherKind::TailLabel;
+}
+
 #[derive(Clone, Copy, Debug, PartialEq, Eq, Serialize, Deserialize)]
 pub enum Fs {
     Tmpfs,
